@@ -130,7 +130,7 @@ theorem sound_l4 (ctx : SCtx M G0) (inv : SInv M G0 σ' I)
       M.doProb I.G I.X I.Y σ := by
   have hwf := inv.valid.wf
   have hVnd := hwf.nodup
-  have hwfx := wf_removeNodes I.G I.X
+  have hwfx := IdAux.wf_removeNodes I.G I.X
   set ds := (I.G.removeNodes I.X).districts with hds
   have hdsV : ∀ S ∈ ds, ∀ v ∈ S, v ∈ I.G.nodes ∧ v ∉ I.X := fun S hS v hv =>
     (mem_nodes_removeNodes I.G hwf I.X v).mp (mem_nodes_of_mem_district hwfx hS hv)
